@@ -165,6 +165,7 @@ def stepLine (d : DState) (line : String) : DState × String :=
       ({ d with st := st' }, showOutcome o ++ " st=" ++ showState st' i)
     | none => (d, "bad-op")
   | "f" :: _ => (d, "fz")      -- malformed byte stream: oracle only, no model
+  | "conc" :: _ => (d, "ok")   -- concurrent stage: the harness runs this driver itself as the sequential oracle
   | "k" :: kind :: rest => (d, kernel kind rest)
   | _ => (d, "bad-op")
 
